@@ -469,6 +469,11 @@ func (e *Exec) exec(f *Frame, in ssa.Instruction) bool {
 		v := e.get(f, x.X)
 		e.fail("panic", "explicit panic: "+e.describe(v))
 	case *ssa.Send:
+		// queueing a message for a client is a scheduling point (the native scheduler has the matching hook in
+		// handler.send / handler.sendMsg): a relay that sends outside the session lock can be overtaken here
+		if fn := f.fn.String(); fn == "(*github.com/aukilabs/hagall/websocket.handler).send" || fn == "(*github.com/aukilabs/hagall/websocket.handler).sendMsg" {
+			e.schedPoint("send")
+		}
 		ch := e.get(f, x.Chan).(*ChanV)
 		return e.chanSend(ch, e.get(f, x.X))
 	case *ssa.Select:
